@@ -27,6 +27,8 @@ from typing import Any, Callable, Iterable
 VERIF = Path(__file__).resolve().parent.parent
 SPEC = VERIF / "spec"
 REPO = Path(os.environ.get("VERIF_REPO", "/repo"))
+# evidence and replay files of runs against another tree (seeded changes in scratch worktrees) never touch the committed ones
+OUT = VERIF if (REPO == Path("/repo") and not os.environ.get("VERIF_SCRATCH_RUN")) else Path(os.environ.get("VERIF_ALT_OUT", "/var/tmp/verif-alt-out"))
 SEED = int(os.environ.get("VERIF_SEED", "0") or 0)
 NCPU = min(16, os.cpu_count() or 1)
 TLC_JAR = "/opt/veriftools/tla/tla2tools.jar:/opt/veriftools/tla/CommunityModules-deps.jar"
@@ -267,7 +269,7 @@ class Ctx:
             return False
         rec = {"property": self.prop, "signature": signature, "seed": self.seed, "tier": self.tier, **detail}
         h = hashlib.sha256(json.dumps(rec, sort_keys=True, default=str).encode()).hexdigest()[:16]
-        d = VERIF / "replays" / self.prop
+        d = OUT / "replays" / self.prop
         d.mkdir(parents=True, exist_ok=True)
         path = d / f"{h}.json"
         path.write_text(json.dumps(rec, indent=1, sort_keys=True, default=str))
@@ -307,8 +309,8 @@ class Ctx:
             "wall_s": round(time.time() - self.t0, 2),
             "violations": len(self.violations),
         }
-        d = VERIF / "evidence"
-        d.mkdir(exist_ok=True)
+        d = OUT / "evidence"
+        d.mkdir(parents=True, exist_ok=True)
         (d / f"{self.prop}.json").write_text(json.dumps(ev, indent=1, default=str) + "\n")
 
     def close(self) -> None:
